@@ -104,6 +104,10 @@ type TermBr struct {
 	// extra.
 
 	// Successor basic blocks of the terminator.
+	//
+	// Deprecated: Successors is unused; it is neither read nor written by Succs,
+	// which computes the successors from the target operands on every call. The
+	// field is kept for source compatibility.
 	Successors []*Block
 	// (optional) Metadata.
 	Metadata
@@ -115,13 +119,11 @@ func NewBr(target *Block) *TermBr {
 	return &TermBr{Target: target}
 }
 
-// Succs returns the successor basic blocks of the terminator.
+// Succs returns the successor basic blocks of the terminator. The successors
+// are computed from the current branch targets on every call; the returned
+// slice is newly allocated and may be modified by the caller.
 func (term *TermBr) Succs() []*Block {
-	// Cache successors if not present.
-	if term.Successors == nil {
-		term.Successors = []*Block{term.Target.(*Block)}
-	}
-	return term.Successors
+	return []*Block{term.Target.(*Block)}
 }
 
 // Operands returns a mutable list of operands of the given terminator.
@@ -154,6 +156,10 @@ type TermCondBr struct {
 	// extra.
 
 	// Successor basic blocks of the terminator.
+	//
+	// Deprecated: Successors is unused; it is neither read nor written by Succs,
+	// which computes the successors from the target operands on every call. The
+	// field is kept for source compatibility.
 	Successors []*Block
 	// (optional) Metadata.
 	Metadata
@@ -165,13 +171,11 @@ func NewCondBr(cond value.Value, targetTrue, targetFalse *Block) *TermCondBr {
 	return &TermCondBr{Cond: cond, TargetTrue: targetTrue, TargetFalse: targetFalse}
 }
 
-// Succs returns the successor basic blocks of the terminator.
+// Succs returns the successor basic blocks of the terminator. The successors
+// are computed from the current branch targets on every call; the returned
+// slice is newly allocated and may be modified by the caller.
 func (term *TermCondBr) Succs() []*Block {
-	// Cache successors if not present.
-	if term.Successors == nil {
-		term.Successors = []*Block{term.TargetTrue.(*Block), term.TargetFalse.(*Block)}
-	}
-	return term.Successors
+	return []*Block{term.TargetTrue.(*Block), term.TargetFalse.(*Block)}
 }
 
 // Operands returns a mutable list of operands of the given terminator.
@@ -204,6 +208,10 @@ type TermSwitch struct {
 	// extra.
 
 	// Successor basic blocks of the terminator.
+	//
+	// Deprecated: Successors is unused; it is neither read nor written by Succs,
+	// which computes the successors from the target operands on every call. The
+	// field is kept for source compatibility.
 	Successors []*Block
 	// (optional) Metadata.
 	Metadata
@@ -215,18 +223,16 @@ func NewSwitch(x value.Value, targetDefault *Block, cases ...*Case) *TermSwitch 
 	return &TermSwitch{X: x, TargetDefault: targetDefault, Cases: cases}
 }
 
-// Succs returns the successor basic blocks of the terminator.
+// Succs returns the successor basic blocks of the terminator. The successors
+// are computed from the current branch targets on every call; the returned
+// slice is newly allocated and may be modified by the caller.
 func (term *TermSwitch) Succs() []*Block {
-	// Cache successors if not present.
-	if term.Successors == nil {
-		succs := make([]*Block, 0, 1+len(term.Cases))
-		succs = append(succs, term.TargetDefault.(*Block))
-		for _, c := range term.Cases {
-			succs = append(succs, c.Target.(*Block))
-		}
-		term.Successors = succs
+	succs := make([]*Block, 0, 1+len(term.Cases))
+	succs = append(succs, term.TargetDefault.(*Block))
+	for _, c := range term.Cases {
+		succs = append(succs, c.Target.(*Block))
 	}
-	return term.Successors
+	return succs
 }
 
 // Operands returns a mutable list of operands of the given terminator.
@@ -290,6 +296,10 @@ type TermIndirectBr struct {
 	// extra.
 
 	// Successor basic blocks of the terminator.
+	//
+	// Deprecated: Successors is unused; it is neither read nor written by Succs,
+	// which computes the successors from the target operands on every call. The
+	// field is kept for source compatibility.
 	Successors []*Block
 	// (optional) Metadata.
 	Metadata
@@ -307,16 +317,16 @@ func NewIndirectBr(addr value.Value, validTargets ...*Block) *TermIndirectBr {
 	return &TermIndirectBr{Addr: addr, ValidTargets: targets}
 }
 
-// Succs returns the successor basic blocks of the terminator.
+// Succs returns the successor basic blocks of the terminator. The successors
+// are computed from the current branch targets on every call; the returned
+// slice is newly allocated and may be modified by the caller.
 func (term *TermIndirectBr) Succs() []*Block {
-	// Cache successors if not present.
-	if term.Successors == nil {
-		// convert ValidTargets slice to []*ir.Block.
-		for _, target := range term.ValidTargets {
-			term.Successors = append(term.Successors, target.(*Block))
-		}
+	// convert ValidTargets slice to []*ir.Block.
+	var succs []*Block
+	for _, target := range term.ValidTargets {
+		succs = append(succs, target.(*Block))
 	}
-	return term.Successors
+	return succs
 }
 
 // Operands returns a mutable list of operands of the given terminator.
@@ -375,6 +385,10 @@ type TermInvoke struct {
 	// Type of result produced by the terminator.
 	Typ types.Type
 	// Successor basic blocks of the terminator.
+	//
+	// Deprecated: Successors is unused; it is neither read nor written by Succs,
+	// which computes the successors from the target operands on every call. The
+	// field is kept for source compatibility.
 	Successors []*Block
 	// (optional) Calling convention; zero if not present.
 	CallingConv enum.CallingConv
@@ -418,13 +432,11 @@ func (term *TermInvoke) Type() types.Type {
 	return term.Typ
 }
 
-// Succs returns the successor basic blocks of the terminator.
+// Succs returns the successor basic blocks of the terminator. The successors
+// are computed from the current branch targets on every call; the returned
+// slice is newly allocated and may be modified by the caller.
 func (term *TermInvoke) Succs() []*Block {
-	// Cache successors if not present.
-	if term.Successors == nil {
-		term.Successors = []*Block{term.NormalRetTarget.(*Block), term.ExceptionRetTarget.(*Block)}
-	}
-	return term.Successors
+	return []*Block{term.NormalRetTarget.(*Block), term.ExceptionRetTarget.(*Block)}
 }
 
 // Operands returns a mutable list of operands of the given terminator.
@@ -536,6 +548,10 @@ type TermCallBr struct {
 	// Type of result produced by the terminator.
 	Typ types.Type
 	// Successor basic blocks of the terminator.
+	//
+	// Deprecated: Successors is unused; it is neither read nor written by Succs,
+	// which computes the successors from the target operands on every call. The
+	// field is kept for source compatibility.
 	Successors []*Block
 	// (optional) Calling convention; zero if not present.
 	CallingConv enum.CallingConv
@@ -584,17 +600,17 @@ func (term *TermCallBr) Type() types.Type {
 	return term.Typ
 }
 
-// Succs returns the successor basic blocks of the terminator.
+// Succs returns the successor basic blocks of the terminator. The successors
+// are computed from the current branch targets on every call; the returned
+// slice is newly allocated and may be modified by the caller.
 func (term *TermCallBr) Succs() []*Block {
-	// Cache successors if not present.
-	if term.Successors == nil {
-		term.Successors = []*Block{term.NormalRetTarget.(*Block)}
-		// Convert OtherRetTargets slice to []*ir.Block.
-		for _, otherRetTarget := range term.OtherRetTargets {
-			term.Successors = append(term.Successors, otherRetTarget.(*Block))
-		}
+	succs := make([]*Block, 0, 1+len(term.OtherRetTargets))
+	succs = append(succs, term.NormalRetTarget.(*Block))
+	// Convert OtherRetTargets slice to []*ir.Block.
+	for _, otherRetTarget := range term.OtherRetTargets {
+		succs = append(succs, otherRetTarget.(*Block))
 	}
-	return term.Successors
+	return succs
 }
 
 // Operands returns a mutable list of operands of the given terminator.
@@ -745,6 +761,10 @@ type TermCatchSwitch struct {
 	// extra.
 
 	// Successor basic blocks of the terminator.
+	//
+	// Deprecated: Successors is unused; it is neither read nor written by Succs,
+	// which computes the successors from the target operands on every call. The
+	// field is kept for source compatibility.
 	Successors []*Block
 	// (optional) Metadata.
 	Metadata
@@ -782,19 +802,19 @@ func (term *TermCatchSwitch) Type() types.Type {
 	return types.Token
 }
 
-// Succs returns the successor basic blocks of the terminator.
+// Succs returns the successor basic blocks of the terminator. The successors
+// are computed from the current branch targets on every call; the returned
+// slice is newly allocated and may be modified by the caller.
 func (term *TermCatchSwitch) Succs() []*Block {
-	// Cache successors if not present.
-	if term.Successors == nil {
-		// convert Handlers slice to []*ir.Block.
-		for _, handler := range term.Handlers {
-			term.Successors = append(term.Successors, handler.(*Block))
-		}
-		if defaultUnwindTarget, ok := term.DefaultUnwindTarget.(*Block); ok {
-			term.Successors = append(term.Successors, defaultUnwindTarget)
-		}
+	// convert Handlers slice to []*ir.Block.
+	var succs []*Block
+	for _, handler := range term.Handlers {
+		succs = append(succs, handler.(*Block))
 	}
-	return term.Successors
+	if defaultUnwindTarget, ok := term.DefaultUnwindTarget.(*Block); ok {
+		succs = append(succs, defaultUnwindTarget)
+	}
+	return succs
 }
 
 // Operands returns a mutable list of operands of the given terminator.
@@ -847,6 +867,10 @@ type TermCatchRet struct {
 	// extra.
 
 	// Successor basic blocks of the terminator.
+	//
+	// Deprecated: Successors is unused; it is neither read nor written by Succs,
+	// which computes the successors from the target operands on every call. The
+	// field is kept for source compatibility.
 	Successors []*Block
 	// (optional) Metadata.
 	Metadata
@@ -858,13 +882,11 @@ func NewCatchRet(catchPad *InstCatchPad, target *Block) *TermCatchRet {
 	return &TermCatchRet{CatchPad: catchPad, Target: target}
 }
 
-// Succs returns the successor basic blocks of the terminator.
+// Succs returns the successor basic blocks of the terminator. The successors
+// are computed from the current branch targets on every call; the returned
+// slice is newly allocated and may be modified by the caller.
 func (term *TermCatchRet) Succs() []*Block {
-	// Cache successors if not present.
-	if term.Successors == nil {
-		term.Successors = []*Block{term.Target.(*Block)}
-	}
-	return term.Successors
+	return []*Block{term.Target.(*Block)}
 }
 
 // Operands returns a mutable list of operands of the given terminator.
@@ -898,6 +920,10 @@ type TermCleanupRet struct {
 	// extra.
 
 	// Successor basic blocks of the terminator.
+	//
+	// Deprecated: Successors is unused; it is neither read nor written by Succs,
+	// which computes the successors from the target operands on every call. The
+	// field is kept for source compatibility.
 	Successors []*Block
 	// (optional) Metadata.
 	Metadata
@@ -919,17 +945,14 @@ func NewCleanupRet(cleanupPad *InstCleanupPad, unwindTarget *Block) *TermCleanup
 	return term
 }
 
-// Succs returns the successor basic blocks of the terminator.
+// Succs returns the successor basic blocks of the terminator. The successors
+// are computed from the current branch targets on every call; the returned
+// slice is newly allocated and may be modified by the caller.
 func (term *TermCleanupRet) Succs() []*Block {
-	// Cache successors if not present.
-	if term.Successors == nil {
-		if unwindTarget, ok := term.UnwindTarget.(*Block); ok {
-			term.Successors = []*Block{unwindTarget}
-		} else {
-			term.Successors = []*Block{}
-		}
+	if unwindTarget, ok := term.UnwindTarget.(*Block); ok {
+		return []*Block{unwindTarget}
 	}
-	return term.Successors
+	return []*Block{}
 }
 
 // Operands returns a mutable list of operands of the given terminator.
